@@ -24,6 +24,8 @@ pub enum BFault {
     Swap(u8),
     /// byte i replaced by b
     Repl(u8, u8),
+    /// not a byte fault: the host calls clear() after i bytes of the sequence (DUAL scenario)
+    ClearAt(u8),
 }
 
 /// Fault applied to one 11-bit frame on the wire.
@@ -163,6 +165,7 @@ fn bf_show(f: &BFault) -> String {
         BFault::Flip(i, b) => format!("flip:{}:{}", i, b),
         BFault::Swap(i) => format!("swap:{}", i),
         BFault::Repl(i, b) => format!("repl:{}:{:02X}", i, b),
+        BFault::ClearAt(i) => format!("clear_at:{}", i),
     }
 }
 fn wf_show(f: &WFault) -> String {
@@ -310,6 +313,7 @@ impl Trace {
                                 "flip" => BFault::Flip(a(1)?, a(2)? % 8),
                                 "swap" => BFault::Swap(a(1)?),
                                 "repl" => BFault::Repl(a(1)?, h(2)?),
+                                "clear_at" => BFault::ClearAt(a(1)?),
                                 _ => return Err(err("unknown byte fault")),
                             };
                             let pfx = num("pfx")? as u8;
